@@ -38,11 +38,7 @@ def run_be(PID, prop_file, gen, monitor, nontrivial, rule, n_quick=400, n_thorou
             keep = [k for k, i in enumerate(il) if i != 'NOTRUN']
             lines = [lines[k] for k in keep]; ml = [ml[k] for k in keep]; il = [il[k] for k in keep]; cobjs = [cobjs[k] for k in keep]
 
-        # UnboundedBlocking frontends (queue kind 2): the per-call read limit of the backend is the capacity of the
-        # node the consumer is on, which M-BE (one bounded queue per thread) does not model: those cases are judged
-        # by the property monitors only (node switching itself is proved and tied in C02)
-        mon_only = [k for k, c in enumerate(cobjs) if c.dropping == 2]
-        for k in mon_only: ml[k] = il[k]
+        mon_only = []
 
         def mon(line, impl):
             c = byline.get(line)
